@@ -228,7 +228,8 @@ def skel_table(skel, name, concrete):
                         wr = fns.get(base + '_data_mut')
                         rvs = re.findall(r'Any%sState::(\w+)\(machine\)=>machine\.(\w+)\.as_ref\(\)' % re.escape(name), canon_dyn(base + '_data', ''.join(rd['stmts']))) if rd else None
                         wvs = re.findall(r'Any%sState::(\w+)\(machine\)=>machine\.(\w+)\.as_mut\(\)' % re.escape(name), canon_dyn(base + '_data_mut', ''.join(wr['stmts']))) if wr else None
-                        if rvs != vs or wvs != vs or lit is None or lit.group(2) != fn:
+                        # the setter writes through a borrow of the wrapped machine (it never takes it out of the wrapper)
+                        if rvs != vs or wvs != vs or lit is None or lit.group(2) != fn or not body.startswith('match self.inner.as_mut(){'):
                             out.append('BAD-DACC|%s|%s|%s|%s' % (fn, vs, rvs, wvs))
                         else:
                             out.append('dacc|%s|%s|%s|%s|%s' % (lit.group(1), base + '_data', base + '_data_mut', fn, ','.join(v for v, _ in vs)))
@@ -313,7 +314,7 @@ def k1_struct(ctx):
 # which table-line kinds matter to which property
 KINDS = {
     'C01': ('arm', 'ev', 'new', 'm', 'BAD'),
-    'C03': ('b',), 'C04': ('b',), 'C05': ('b', 'arm'), 'C06': ('b',), 'C08': ('b', 'nb', 'fld'), 'C15': ('b', 'arm', 'm'), 'C16': ('b',),
+    'C03': ('b',), 'C04': ('b',), 'C05': ('b', 'arm'), 'C06': ('b',), 'C08': ('b', 'nb', 'fld'), 'C15': ('b', 'arm', 'm'), 'C16': ('b', 'nb', 'new'),
     'C02': ('m', 'new', 'acc', 'UNEXPECTED', 'BAD-STRUCT', 'OTHER'),
     'C07': ('m', 'sub', 'mk', 'arm'),
     'C14': None,       # everything
@@ -321,7 +322,8 @@ KINDS = {
     # identifiers that coincide across roles (a hook named like an event, look-alike states): bodies, methods, arms, variants
     'C18': ('b', 'm', 'arm', 'ev', 'sub'),
     'C10': ('dyn', 'BAD-DYN', 'into', 'BAD-INTO', 'BAD-VIS'),       # the wrapper, its Default impl, the conversions
-    'C19': ('arm', 'BAD-ARM', 'BAD-HANDLE', 'BAD-DYN'),             # the frame of handle(): take, arms, write-back
+    'C19': ('arm', 'BAD-ARM', 'BAD-HANDLE', 'BAD-DYN'),
+    'C11': ('dacc', 'BAD-DACC', 'acc'),                             # the dynamic accessors and setters             # the frame of handle(): take, arms, write-back
 }
 
 
